@@ -38,7 +38,7 @@ pub fn run_header(src: &str) -> Outcome {
     let s = src.to_string();
     std::thread::spawn(move || { let _ = tx.send(header_once(s)); });
     let expected = "a value or a non-empty list of renderable errors, promptly".to_string();
-    match rx.recv_timeout(Duration::from_millis(1500)) {
+    match rx.recv_timeout(crate::tmo(1500)) {
         Ok(Ok(d)) => Outcome { fails: false, observed: d, expected },
         Ok(Err(d)) => Outcome { fails: true, observed: d, expected },
         Err(_) => Outcome { fails: true, observed: "no result after 1.5 s (hang)".into(), expected },
@@ -73,7 +73,7 @@ pub fn run_lex(src: &str) -> Outcome {
     let s = src.to_string();
     std::thread::spawn(move || { let _ = tx.send(lex_once(s)); });
     let expected = "a value or a non-empty list of renderable errors, promptly".to_string();
-    match rx.recv_timeout(Duration::from_millis(1500)) {
+    match rx.recv_timeout(crate::tmo(1500)) {
         Ok(Ok(d)) => Outcome { fails: false, observed: d, expected },
         Ok(Err(d)) => Outcome { fails: true, observed: d, expected },
         Err(_) => Outcome { fails: true, observed: "no result after 1.5 s (hang)".into(), expected },
@@ -138,7 +138,7 @@ pub fn run_yacc(src: &str) -> Outcome {
     let s = src.to_string();
     std::thread::spawn(move || { let _ = tx.send(yacc_once(s)); });
     let expected = "a value or a non-empty list of renderable errors, promptly".to_string();
-    match rx.recv_timeout(Duration::from_millis(1500)) {
+    match rx.recv_timeout(crate::tmo(1500)) {
         Ok(Ok(d)) => Outcome { fails: false, observed: d, expected },
         Ok(Err(d)) => Outcome { fails: true, observed: d, expected },
         Err(_) => Outcome { fails: true, observed: "no result after 1.5 s (hang)".into(), expected },
